@@ -483,6 +483,143 @@ theorem go_unguardVal (v : Val) (s : VmState) :
     (unguardVal v).go s = (.ok ⟨⟩, { s with guards := unguard v s.guards }) := by
   cases v <;> rfl
 
+/-! ## `guardRows` / `unguardRows` -/
+
+/-- the guards `guardRows es` adds, as they end up on the guard list (last row first) -/
+def rowGuards : List (Val × Val) → List Nat
+  | [] => []
+  | e :: es => rowGuards es ++ (guardOf e.2 ++ guardOf e.1)
+
+/-- what `unguardRows es` does to the guard list -/
+def unrow : List (Val × Val) → List Nat → List Nat
+  | [], g => g
+  | e :: es, g => unrow es (unguard e.2 (unguard e.1 g))
+
+theorem guardRows_cons (k v : Val) (es : List (Val × Val)) :
+    guardRows ((k, v) :: es) = (guardVal k >>= fun _ => guardVal v >>= fun _ => guardRows es) := by
+  unfold guardRows
+  simp only [List.forIn_cons, bind_assoc, pure_bind]
+
+theorem unguardRows_cons (k v : Val) (es : List (Val × Val)) :
+    unguardRows ((k, v) :: es) = (unguardVal k >>= fun _ => unguardVal v >>= fun _ => unguardRows es) := by
+  unfold unguardRows
+  simp only [List.forIn_cons, bind_assoc, pure_bind]
+
+theorem go_guardRows (es : List (Val × Val)) : ∀ s : VmState,
+    (guardRows es).go s = (.ok ⟨⟩, { s with guards := rowGuards es ++ s.guards }) := by
+  induction es with
+  | nil => intro s; rfl
+  | cons e es ih =>
+    intro s
+    obtain ⟨k, v⟩ := e
+    rw [guardRows_cons, go_bind_ok (go_guardVal k s), go_bind_ok (go_guardVal v _), ih]
+    simp only [rowGuards, List.append_assoc]
+
+theorem go_unguardRows (es : List (Val × Val)) : ∀ s : VmState,
+    (unguardRows es).go s = (.ok ⟨⟩, { s with guards := unrow es s.guards }) := by
+  induction es with
+  | nil => intro s; rfl
+  | cons e es ih =>
+    intro s
+    obtain ⟨k, v⟩ := e
+    rw [unguardRows_cons, go_bind_ok (go_unguardVal k s), go_bind_ok (go_unguardVal v _), ih]
+    rfl
+
+/-- the addresses `unguardRows es` releases, in order -/
+def rowAddrs (es : List (Val × Val)) : List Nat := es.flatMap (fun e => guardOf e.1 ++ guardOf e.2)
+
+theorem unguard_eq_foldl' (v : Val) (g : List Nat) : unguard v g = (guardOf v).foldl List.erase g := by
+  cases v <;> rfl
+
+theorem unrow_eq_foldl (es : List (Val × Val)) : ∀ g, unrow es g = (rowAddrs es).foldl List.erase g := by
+  induction es with
+  | nil => intro g; rfl
+  | cons e es ih =>
+    intro g
+    simp only [unrow, rowAddrs, List.flatMap_cons, List.foldl_append, ih, unguard_eq_foldl']
+
+theorem rowGuards_perm (es : List (Val × Val)) : (rowAddrs es).Perm (rowGuards es) := by
+  induction es with
+  | nil => exact List.Perm.refl _
+  | cons e es ih =>
+    simp only [rowAddrs, rowGuards, List.flatMap_cons]
+    exact (List.Perm.append List.perm_append_comm ih).trans List.perm_append_comm
+
+/-- erasing (in any order) exactly the elements that were put in front gives back the rest -/
+theorem foldl_erase_front : ∀ (P' P R : List Nat), P'.Perm P → P'.foldl List.erase (P ++ R) = R := by
+  intro P'
+  induction P' with
+  | nil => intro P R h; rw [List.nil_perm.mp h]; rfl
+  | cons x xs ih =>
+    intro P R h
+    have hx : x ∈ P := h.subset List.mem_cons_self
+    have h' : xs.Perm (P.erase x) := by
+      have := h.erase x
+      rwa [List.erase_cons_head] at this
+    rw [List.foldl_cons, List.erase_append_left _ hx]
+    exact ih _ _ h'
+
+/-- **`unguardRows` undoes `guardRows`** exactly (not only up to permutation): every address it
+    erases is first found among the ones `guardRows` put in front -/
+theorem unrow_rowGuards (es : List (Val × Val)) (g : List Nat) : unrow es (rowGuards es ++ g) = g := by
+  rw [unrow_eq_foldl]; exact foldl_erase_front _ _ _ (rowGuards_perm es)
+
+theorem mem_of_mem_unguard {v : Val} {g : List Nat} {x : Nat} (h : x ∈ unguard v g) : x ∈ g := by
+  cases v with
+  | obj a => exact List.mem_of_mem_erase h
+  | _ => exact h
+
+theorem mem_of_mem_unrow (es : List (Val × Val)) : ∀ {g : List Nat} {x : Nat}, x ∈ unrow es g → x ∈ g := by
+  induction es with
+  | nil => intro g x h; exact h
+  | cons e es ih => intro g x h; exact mem_of_mem_unguard (mem_of_mem_unguard (ih h))
+
+theorem mem_rowGuards {es : List (Val × Val)} {x : Nat} (h : x ∈ rowGuards es) :
+    ∃ e ∈ es, e.1 = .obj x ∨ e.2 = .obj x := by
+  induction es with
+  | nil => cases h
+  | cons e es ih =>
+    simp only [rowGuards, List.mem_append] at h
+    rcases h with h | h | h
+    · obtain ⟨e', he', h'⟩ := ih h
+      exact ⟨e', List.mem_cons_of_mem _ he', h'⟩
+    · refine ⟨e, List.mem_cons_self, Or.inr ?_⟩
+      cases hv : e.2 <;> rw [hv] at h <;> simp [guardOf] at h
+      rw [h]
+    · refine ⟨e, List.mem_cons_self, Or.inl ?_⟩
+      cases hv : e.1 <;> rw [hv] at h <;> simp [guardOf] at h
+      rw [h]
+
+theorem unguard_erase_comm (v : Val) (g : List Nat) (a : Nat) :
+    unguard v (g.erase a) = (unguard v g).erase a := by
+  cases v with
+  | obj b => exact List.erase_comm a b
+  | _ => rfl
+
+theorem unrow_erase_comm (es : List (Val × Val)) : ∀ (g : List Nat) (a : Nat),
+    unrow es (g.erase a) = (unrow es g).erase a := by
+  induction es with
+  | nil => intro g a; rfl
+  | cons e es ih => intro g a; simp only [unrow, unguard_erase_comm, ih]
+
+theorem Grown.trans {s₀ s₁ s₂ : VmState} (h1 : Grown s₀ s₁) (h2 : Grown s₁ s₂) : Grown s₀ s₂ :=
+  h1.step h2.stack h2.frames h2.globals h2.openUpvalues (fun g hg => h2.guards g (h1.guards g hg))
+    h2.keep h2.next h2.fresh
+
+/-- the machine after `guardRows es`, seen from the machine before -/
+theorem Grown.rows (s : VmState) (hf : FreshNext s.heap) (es : List (Val × Val)) :
+    Grown s { s with guards := rowGuards es ++ s.guards } :=
+  (Grown.refl s hf).setGuards _ (fun g hg => List.mem_append_right _ hg)
+
+/-- a run between `guardRows es` and `unguardRows es` that is invisible from the state after
+    `guardRows es` and leaks no guard is invisible from the state before, and leaks no guard -/
+theorem Grown.unrow {s s₁ : VmState} {es : List (Val × Val)} (hf : FreshNext s.heap)
+    (hG : Grown { s with guards := rowGuards es ++ s.guards } s₁)
+    (hgu : s₁.guards = rowGuards es ++ s.guards) :
+    Grown s { s₁ with guards := Native.unrow es s₁.guards } ∧ Native.unrow es s₁.guards = s.guards := by
+  have e : Native.unrow es s₁.guards = s.guards := by rw [hgu, unrow_rowGuards]
+  exact ⟨((Grown.rows s hf es).trans hG).setGuards _ (fun g hg => by rw [e]; exact hg), e⟩
+
 /-! ## `tableInsert` on success -/
 
 /-- the entry list after an insertion: overwrite the entry with an equal key, or append -/
@@ -863,6 +1000,14 @@ theorem presOk_guardVal (v : Val) : PresOk Bal (guardVal v) :=
 theorem presOk_unguardVal (v : Val) : PresOk Bal (unguardVal v) :=
   ⟨fun s _ s' h => by
     rw [go_unguardVal] at h
+    simp only [Prod.mk.injEq] at h; rw [← h.2]; exact ⟨StackSame.refl _, rfl⟩⟩
+theorem presOk_guardRows (es : List (Val × Val)) : PresOk Bal (guardRows es) :=
+  ⟨fun s _ s' h => by
+    rw [go_guardRows] at h
+    simp only [Prod.mk.injEq] at h; rw [← h.2]; exact ⟨StackSame.refl _, rfl⟩⟩
+theorem presOk_unguardRows (es : List (Val × Val)) : PresOk Bal (unguardRows es) :=
+  ⟨fun s _ s' h => by
+    rw [go_unguardRows] at h
     simp only [Prod.mk.injEq] at h; rw [← h.2]; exact ⟨StackSame.refl _, rfl⟩⟩
 theorem presOk_allocBytes (c : Nat) : PresOk Bal (allocBytes c) :=
   ⟨fun s a s' h => by
